@@ -388,6 +388,26 @@ func checkC11(r *core.Run) {
 			r.Check(endless && !exits && consumes, "C11.alive", core.ShortKey(loopFn.Obj)+" : endless loop receiving from the queue", w.Pos(loopFn.Decl.Pos()), "for { select { <-queue ... } } without exit", "the consumer loop can terminate (return/labelled break/panic) or does not receive from the commit queue")
 		}
 	}
+	// the resource manager answers 'committed' only after it handed the request to the worker
+	if mgr := managerFor(r, "BranchTypeAT"); mgr != nil {
+		if mf := methodInfo(w, mgr, "BranchCommit"); r.Anchor("C11.accept", mf, "AT resource manager BranchCommit") != nil {
+			res := (&flow.Spec{W: w, Depth: 0, Classify: func(pkg *packages.Package, call *ast.CallExpr, callee *types.Func) []flow.Tag {
+				if callee == bc.Obj {
+					return []flow.Tag{"handed"}
+				}
+				return nil
+			}}).Analyze(mf)
+			for _, ex := range res.Exits {
+				c := ex.ResultConst(mf.Pkg.TypesInfo, 0)
+				if c == nil || c.Name() != "BranchStatusPhasetwoCommitted" {
+					continue
+				}
+				r.Sites++
+				r.Check(ex.St.Has("handed"), "C11.accept", core.ShortKey(mf.Obj)+" "+exitRole(ex, nil)+" answers committed only after handing the request to the async worker", w.Pos(ex.Pos),
+					"handed over on every path to this answer", "'committed' is answered on a path that never hands the request to the async worker: the undo log of that branch is never deleted (a resource that is unknown right now is the worker's business: it puts the request back until the resource is known)")
+			}
+		}
+	}
 	c11Batch(r, aw)
 	r.Floor("C11.batch", 1)
 	c11Handoff(r, aw)
